@@ -61,7 +61,24 @@ def one_case(args):
     conf = rng.random() < 0.45
     mode = rng.choice(MODES)
     frames_truth = None
-    if conf:
+    scale = case % 4000 == 0
+    if scale:
+        # one large case per run: every counter of the statement beyond 65 536 (packets, HBFs, trigger bits), payload bytes beyond 2^16, > 1000 reader batches
+        conf = False
+        mode = [["check", "sanity"], ["check", "all"], ["view", "rdh"], ["check", "all", "its"]][(seed + case // 4000) % 4]
+        fp = frame.generate(rng, 140000, payload="none", sane_headers=True)
+        for i, p in enumerate(fp):
+            p.f["system_id"] = 32
+            p.f["stop_bit"] = i & 1
+            if i % 10:
+                p.f["trigger_type"] |= 0x3
+        for p in fp[::7]:
+            p.payload = bytes(16)
+        for p in fp[1000:140000:63]:
+            p.payload = bytes(8000)         # 2207 large payloads: more than 2^24 payload bytes in total
+        data = frame.serialize(fp)
+        pkts = [(p.f, len(p.payload)) for p in fp]
+    elif conf:
         s = gen.generate(rng.getrandbits(40), target_packets=rng.choice([None, None, 100, 200, 101]) if rng.random() < 0.3 else None)
         data = s.serialize()
         pk = s.all_packets()
@@ -88,11 +105,11 @@ def one_case(args):
     use_stdin = rng.random() < 0.3
     path = os.path.join(wd, "c%d.raw" % case)
     write_file(path, data)
-    argv = ([] if use_stdin else [path]) + mode + (R.filter_args(*flt) if flt else []) + (["-m"] if rng.random() < 0.2 else [])
+    argv = ([] if use_stdin else [path]) + mode + (R.filter_args(*flt) if flt else []) + (["-m"] if rng.random() < 0.2 or scale else [])
     to_file = mode == [] and rng.random() < 0.5
     r = obs.run(exe, argv, stdin_path=path if use_stdin else None, workdir=wd, stats=fmt, out_name=to_file, tag="c%d" % case)
     os.unlink(path)
-    desc = "%s stream, %d packets, mode %s, filter %s, %s, stats %s" % ("G-conf" if conf else "G-frame", len(pkts), " ".join(mode) or "writer", flt,
+    desc = "%s stream, %d packets, mode %s, filter %s, %s, stats %s" % ("G-conf" if conf else "G-frame (scale case)" if scale else "G-frame", len(pkts), " ".join(mode) or "writer", flt,
                                                                           "pipe" if use_stdin else "file", fmt)
     out["key"] = (" ".join(mode), flt[0] if flt else None, fmt, conf, min(len(pkts), 202) // 50)
     out["sample"] = desc
@@ -176,6 +193,6 @@ def run(res):
             res.nontrivial.add(o["key"])
         res.sample(o["sample"])
     res.rule = ("G-frame (arbitrary headers) and G-conf streams x 9 modes (5 checks, 3 views, filter writer) x filters x {JSON, TOML} x {file, pipe}; every "
-                "statistic of the statement compared with the independent count; non-trivial = distinct (mode, filter kind, format, generator, count class)")
+                "statistic of the statement compared with the independent count; one scale case per run (140 000 packets, 17.7 MB of payload: all counters > 65 536, payload bytes > 2^24); non-trivial = distinct (mode, filter kind, format, generator, count class)")
     res.min_nontrivial = 40 if res.tier == "quick" else 120
     res.assumptions = ["one system id per stream (layer/stave statistics are only collected for ITS)", "no error cap, no fatal input error"]
